@@ -10,7 +10,7 @@ TEXTS = {
     "C01": {
         "technique": "rapid property test over generated objects x registries x configurations; result-set invariant oracle",
         "level_text": "Exploration: tens of thousands (quick) to millions (thorough) of generated parseable certificates/CRLs/OCSP responses, each linted with a generated registry selection and configuration; every returned ResultSet is checked against the invariants of the statement (exact key set, non-nil, metadata, status range, four flags both directions, version from go.mod, no panic/hang). Status mixes the real lints cannot produce come from the mock-lint leg.",
-        "level_note": "Samples the input space; shapes no generator reaches are not covered. Hang = one call > 120 s.",
+        "level_note": "Samples the input space; shapes no generator reaches are not covered. Hang = one call > 45 s.",
     },
     "C02": {
         "technique": "single-edit DER sweep (enumerated in thorough) + rapid multi-edit mutation + native fuzzing (thorough); panic / explicit-fatal oracle with reference lifecycle",
